@@ -75,6 +75,20 @@ def valid_head(rng, cl=None, plain=False):
     return m + b" " + t + b" " + v + b"".join(b"\r\n" + l for l in ls)
 
 
+def special_request(rng):
+    """a request whose headers mean something to HTTP servers in general (Expect, Connection, Upgrade,
+    Transfer-Encoding) with a declared body that is withheld, partly sent or complete; returns the bytes"""
+    n = pick(rng, [0, 1, 5, 30])
+    lines = [pick(rng, SPECIAL_LINES)]
+    if rng.random() < 0.3:
+        lines.append(pick(rng, SPECIAL_LINES))
+    if n or rng.random() < 0.5:
+        lines.insert(rng.randrange(len(lines) + 1), pick(rng, [b"Content-Length", b"content-length"]) + b": " + str(n).encode())
+    head = pick(rng, [b"POST", b"PUT", b"GET"]) + b" /x " + pick(rng, VERSIONS) + b"".join(b"\r\n" + l for l in lines)
+    body = b"b" * pick(rng, [0, 0, n // 2, n])
+    return head + b"\r\n\r\n" + body
+
+
 def bad_head(rng):
     k = rng.randrange(9)
     m, t, v = pick(rng, METHODS), target(rng), pick(rng, VERSIONS)
@@ -280,7 +294,11 @@ def gen_C03(rng, count, tier):
         post = []
         for _ in range(rng.randrange(0, 3)):
             post.append(pick(rng, ["ackall", "write:" + hx(b"late"), "wh", "close", "turn", "err:500:~", "ack:3"]))
-        yield ("sock", " ".join(["new"] + ops + tail + post))
+        pre = []
+        if rng.random() < 0.25:
+            # the response answers a request (whose headers the library gives no meaning to)
+            pre = [feeds([special_request(rng) if rng.random() < 0.6 else valid_head(rng, plain=True) + b"\r\n\r\n"])] + (["turn"] if rng.random() < 0.5 else [])
+        yield ("sock", " ".join(["new"] + pre + ops + tail + post))
 
 
 # ------------------------------------------------------------------------------------ C04
@@ -334,7 +352,7 @@ def gen_C18(rng, count, tier):
         evs = ["new"]
         if rng.random() < 0.4:
             # the response answers a request that was received first
-            evs += [feeds([valid_head(rng) + b"\r\n\r\n"]), "turn"]
+            evs += [feeds([special_request(rng) if rng.random() < 0.4 else valid_head(rng, plain=True) + b"\r\n\r\n"]), "turn"]
         evs += ops
         if rng.random() < 0.5:
             evs.append("wh")
@@ -379,6 +397,21 @@ def gen_C19(rng, count, tier):
                                "@hp write:%s close write:%s wh err:500:~ close @end" % (hx(b"hello"), hx(b"more")),
                                "@hp redir:%s:1 redir:%s:0 json:%s:200 @end" % (hx(b"/n"), hx(b"/m"), hx(b"{}")),
                                "@hp close wh write:%s @end" % hx(b"x")])
+        if rng.random() < 0.12:
+            # respond with a declared length, exactly that much data, and close only after the transport has
+            # taken everything (the request body, if declared, is complete by then)
+            body = pick(rng, [b"hello", b"", b"x" * 40])
+            behaviour = "@%s hdr:%s:%s:r write:%s @end" % (pick(rng, ["hp", "hp", "rcf"]), hx(b"Content-Length"), hx(str(len(body)).encode()), hx(body))
+            if not body:
+                behaviour = behaviour.replace("write:-", "wh")
+            evs = ["feed:" + hx(s) for s in segs] + [pick(rng, ["ackall", "ack:100000", "ackall turn"]), "close"]
+            for _ in range(rng.randrange(0, 3)):
+                evs.append(pick(rng, ["turn", "ackall", "write:" + hx(b"after"), "close"]))
+            evs.append("ackall")
+            line = " ".join([behaviour, "new"] + evs)
+            line = " ".join(t + " mark" if t == "close" else t for t in line.split())
+            yield ("sock", line)
+            continue
         evs = ["feed:" + hx(s) for s in segs]
         if behaviour == "" or rng.random() < 0.3:
             evs.insert(rng.randrange(len(evs) + 1), pick(rng, ["write:%s close" % hx(b"idle"), "close", "err:500:~"]))
@@ -455,6 +488,8 @@ def gen_C16(rng, count, tier):
     if batch:
         yield ("range", " ".join(batch)); n += 1
     big = [0, 1, -1, 2, 2**31 - 2, 2**31 - 1, 2**31, 2**31 + 1, 2**32, 2**62 - 1, -(2**62) + 1, 2**61, 10**9, 500, 499, 1000]
+    # boundary-biased part: always run (the exhaustive part above may already exceed `count`)
+    n = min(n, count - max(150, count // 2))
     while n < count:
         n += 1
         toks = []
@@ -1055,6 +1090,10 @@ def gen_C11(rng, count, tier):
 
 def gen_C20(rng, count, tier):
     hello = bytes.fromhex("16030100c8010000c40303") + bytes(range(32)) + b"\x00\x00\x02\x13\x01\x01\x00"
+    # an established TLS connection that stays idle for a while before the request is sent (timers armed
+    # during the handshake must not touch it); real time, so only a few
+    for ms in ([6500] if tier == "quick" else [6500, 11000, 31000]):
+        yield ("tls", "tls ssl:%s idle:%d" % (hx(b"/idle"), ms))
     for i in range(count):
         mode = "tls" if rng.random() < 0.75 else "plain"
         k = rng.randrange(10)
